@@ -800,7 +800,11 @@ class Operation:
 
             for idx in range(len(begin_tens.values)):
                 offset_start[idx] = begin_tens.values[idx]
-                offset_end[idx] = size_tens.values[idx] + offset_start[idx]
+                if size_tens.values[idx] == -1:
+                    # A size of -1 selects all the remaining elements of the dimension
+                    offset_end[idx] = input_tens.shape[idx]
+                else:
+                    offset_end[idx] = size_tens.values[idx] + offset_start[idx]
 
         elif self.type == Op.StridedSlice:
             input_tens, begin_tens, end_tens, strides_tens = self.inputs
